@@ -157,6 +157,29 @@ Theorem C18_reconnect_loses_nothing : forall w,
 Proof. exact reconnect_untouched. Qed.
 Print Assumptions C18_reconnect_loses_nothing.
 
+(* Reconciliation answers need not carry executor_id, agent_id or source (master-generated
+   statuses).  updateTaskStatus refreshes the ids of the roster task only from fields the status
+   carries (status_refresh_guarded = true is what the translator reads off the guards around the
+   two assignments; unguarded, an answer without them blanks the id and Task.isLocked turns false):
+   processing an answer that lacks any of them is processing a complete one, and no answer takes
+   the lock of a roster task away ([keeps]: same environment, ACTIVE mark not lost). *)
+Theorem C18_answers_never_unlock : forall w om,
+  step w (OAnswerBare om) = step w OAnswer /\
+  keeps (w_roster w) (w_roster (fst (step w (OAnswerBare om)))).
+Proof. exact answers_never_unlock. Qed.
+Print Assumptions C18_answers_never_unlock.
+
+(* So a reconnection answered that way loses nothing either - and, the world being the same, neither
+   does any later operation (Cleanup, a new CreateEnvironment, another reconnection). *)
+Theorem C18_bare_answers_lose_nothing : forall w om,
+  hstep w (OReconnectOmit om) = hstep w OReconnect /\
+  (let r := hstep w (OReconnectOmit om) in
+   keeps (w_roster w) (w_roster (fst r)) /\ w_envs (fst r) = w_envs w /\
+   (forall x, In x (w_master w) -> in_roster (mt_id x) (w_roster w) = true -> In x (w_master (fst r))) /\
+   (forall t, In (CKill t) (snd r) -> in_roster t (w_roster w) = false)).
+Proof. intros w om. split; [apply reconnect_omit_is_reconnect|apply reconnect_omit_untouched]. Qed.
+Print Assumptions C18_bare_answers_lose_nothing.
+
 (* What makes a roster task ACTIVE or INACTIVE (regenerated from updateTaskStatus): TASK_RUNNING
    activates, TASK_LOST and TASK_FAILED deactivate, no state in which the master has a task
    alive deactivates, and TASK_RUNNING is the only live state that activates.  So INACTIVE roster
@@ -207,6 +230,11 @@ Example C18_nonvacuous :
    map rt_active (w_roster l) = [true; false] /\ owned l 1 = true /\
    kills_of (snd (hstep l OReconnect)) = [] /\
    map rt_active (w_roster (fst (hstep l OReconnect))) = [true; true]) /\
+  (* answers without executor_id and agent_id for two owned tasks, then Cleanup: nothing is killed,
+     both stay locked *)
+  (let b := fst (hstep (after (boot true) [OCreate 2]) (OReconnectOmit 3)) in
+   map rt_env (w_roster b) = [Some 0; Some 0] /\ kills_of (snd (hstep b OCleanup)) = [] /\
+   map mt_alive (w_master (fst (hstep b OCleanup))) = [true; true]) /\
   (* a restart whose reconciliation is lost: two SUBSCRIBEs, two RECONCILEs, the leftovers killed by
      the second; with the answers lost and NO further subscription they would survive *)
   (let v := after (boot true) [OCreate 2] in
